@@ -7,6 +7,38 @@ PY = '/venv/bin/python -B -m vf.run'
 
 # id -> (engine, category, technique, level text, level_note, design_ref)
 CHECKS = {
+ 'C09': ('SX', 'model_checking',
+         'explicit-state BFS over operation histories on the real session cache; twin execution (session view before commit) vs independent raw dump after commit',
+         'All histories of depth 2 (+ depth 3 ending in commit/end/rollback/raise) over the generated operation alphabet of 13 (thorough 21) entity models, from an empty and a populated database: after every commit the raw rows decoded with the column mapping equal the public view a twin read just before the commit; every other transition leaves the committed rows untouched.',
+         'SQLite only; alphabets are small by construction (two objects per entity + one creatable, ints {0,1}, strs {u1,u2}); bulk Query.delete(bulk=True) is excluded here because it bypasses the cache by design (judged in C15).', 'DESIGN.md section 3 C09'),
+ 'C10': ('SX', 'model_checking',
+         'explicit-state BFS; differential of every read inside the session vs the same read in a fresh session after commit',
+         'For every distinct state reached by histories of depth <= 2 and every read of a ~100-member read family (Entity[pk], get, exists, select by keyword/generator, count/sum/max, projections, attribute reads, collection len/count/is_empty/in/iteration/select, to_dict, select_by_sql) the answer inside the session equals the answer a fresh session gives after the history is committed. flush is part of the alphabet, so reads after a flush are compared with the same reference.',
+         'quick tier: depth 2 only for six core models and only reads naming objects/attributes of the history; latent key conflicts with unloaded rows are skipped (C14).', 'DESIGN.md section 3 C10'),
+ 'C11': ('SX', 'model_checking',
+         'explicit-state BFS; identity probes over 9+ routes per object and an index-consistency probe in every state',
+         'In every distinct state of depth <= 2: Entity[pk], get, select(**kw), select(generator), select_by_sql, navigation from every neighbour and back, pickle round trip and make_proxy all return the identical object; SessionCache.indexes agrees with the values the live objects hold.',
+         'the index probe reads internal names (indexes, _vals_, _pkval_, _status_); SQLite only.', 'DESIGN.md section 3 C11'),
+ 'C12': ('SX', 'model_checking',
+         'explicit-state BFS; symmetry check of the public view in every state',
+         'In every distinct state of depth <= 2 (thorough 3) the public view, read once without and once with a preceding flush, is symmetric for every pair of reverse attributes (one-to-many, one-to-one, many-to-many, symmetric, self-referencing).',
+         'views that raise (implicit flush of a latent conflict) are not judged here (C10/C13).', 'DESIGN.md section 3 C12'),
+ 'C13': ('SX', 'model_checking',
+         'explicit-state BFS; twin differential around every failing modification call (observable state, writes and rows of a following commit)',
+         'For every create/assignment/set(**kw)/collection change/delete that raises at the end of a history of depth <= 2 (thorough 3): the public view, the outcome of a following commit, the multiset of write statements of the whole session and the committed rows equal those of the twin in which the call was not made.',
+         'failures raised by an implicit flush roll the session back by design and are skipped; SQLite only.', 'DESIGN.md section 3 C13'),
+ 'C14': ('SX', 'model_checking',
+         'explicit-state BFS; duplicate-key checks on committed rows and on the session view, flush-time conflicts leave rows unchanged',
+         'Histories of depth <= 2 (+ depth 3 ending in flush/commit) with key moves, delete-then-recreate, explicit ids meeting unloaded rows and optional unique keys holding None: no commit leaves two rows with equal declared keys, no state holds two live objects with equal keys, and a conflict found at flush time leaves the committed rows exactly as they were.',
+         'SQLite enforces the UNIQUE constraints Pony declares (schema correctness is C26); any exception counts as reported, AssertionError/KeyError are counted as ungraceful.', 'DESIGN.md section 3 C14'),
+ 'C15': ('SX', 'model_checking',
+         'explicit-state BFS; declarative deletion closure as reference model, PRAGMA foreign_key_check / integrity_check after commit',
+         'Every obj.delete(), delete(query) and Query.delete(bulk=True) at the end of histories of depth <= 2 (thorough 3) over all 21 models (cascade True/False/default x required/optional x relationship kind): the view after equals the deletion closure of the view before, a refused delete changes nothing, the committed database has no dangling reference.',
+         'closure computed from the declaration as resolved at mapping time (cascade_delete, is_required); delete(query) may stop half way (object-by-object) and bulk delete is judged for dangling references only.', 'DESIGN.md section 3 C15'),
+ 'C16': ('SX', 'model_checking',
+         'explicit-state BFS; outcome classification of every flush/commit with a cycle oracle computed from a twin',
+         'Every flush/commit/leave at the end of histories of depth <= 3: success, a key conflict with an unloaded row, or UnresolvableCyclicDependency exactly when the unsaved created objects reference each other in a cycle; a FOREIGN KEY failure is a violation; a failing flush leaves no committed rows.',
+         'single session (no concurrent deletions); SQLite enforces foreign keys immediately.', 'DESIGN.md section 3 C16'),
  'C25': ('VX+DM', 'exploration',
          'bounded-exhaustive enumeration of (dialect, form, length, start, stop) with a Python oracle',
          'Every string length 0..5 x start/stop/index in {omitted,None,-7..7} x {constant, parameter, column} is translated by the '
@@ -44,6 +76,7 @@ def main():
              hooks=dict(guard='PONYORM_PONY_VERIF', enable='no source hooks: all seams are public/instance-level (DESIGN.md section 0)',
                         baseline_off_cmd='/verif/tools/baseline.py /repo', source_commits=[], add_only=True),
              engines=[
+                 dict(name='SX', path='vf/engines/sx.py', serves_properties=[], kind_free_text='session explorer: explicit-state BFS over operation histories on the real session cache, canonical-state deduplication, twin executions as oracles'),
                  dict(name='VX', path='vf/props', serves_properties=[], kind_free_text='bounded-exhaustive value/declaration/expression enumerators'),
                  dict(name='DM', path='vf/engines/dm.py', serves_properties=['C02', 'C06', 'C25'], kind_free_text='dialect models: capture databases on stub drivers + SQLite substrate with documented function semantics'),
              ],
